@@ -63,10 +63,27 @@ def orderAliasShadow (q : Query) : Bool :=
     it.expr != .plain (.var it.alias) &&
       p.items.any fun it' => (Compile.itemExprOf it'.expr).vars.contains it.alias
 
+def nodeVarsOf (pats : List PathPat) : List String :=
+  pats.flatMap fun p => p.start.var.toList ++ p.steps.flatMap fun (_, np) => np.var.toList
+
+/-- C11-match-null-bound-variable: a MATCH pattern names a node variable that an earlier OPTIONAL MATCH introduced
+    (so it may be null): the planner joins on the bound variable with a label filter `v IS NULL OR v:L` and keeps the
+    row, where the reference (and openCypher) finds no match for a null node -/
+def nullBoundMatch (q : Query) : Bool :=
+  let rec go (optVars : List String) : Query → Bool
+    | [] => false
+    | .match_ opt pats :: rest =>
+      (nodeVarsOf pats).any optVars.contains ||
+        go (if opt then optVars ++ nodeVarsOf pats else optVars) rest
+    | .with_ p _ :: rest => go (optVars.filter fun v => p.items.any fun it => it.expr == .plain (.var v) && it.alias == v) rest
+    | _ :: rest => go optVars rest
+  go [] q
+
 def triggers (A : Algebra) (env : Env) (q : Query) : List String :=
   (if parallelReuse env.g q then ["C11-parallel-rel-reuse"] else []) ++
   (if crossPattern q then ["C11-cross-pattern-rel-uniqueness"] else []) ++
   (if optionalDupOuter A env q then ["C11-optional-duplicate-outer-rows"] else []) ++
-  (if orderAliasShadow q then ["C11-order-by-alias-shadow"] else [])
+  (if orderAliasShadow q then ["C11-order-by-alias-shadow"] else []) ++
+  (if nullBoundMatch q then ["C11-match-null-bound-variable"] else [])
 
 end Nervus.Cy.Findings
